@@ -47,6 +47,7 @@ type C03Case struct {
 	Decls  []C03Decl `json:"decls"`
 	Hints  bool      `json:"hints"`
 	Layout bool      `json:"via_layout,omitempty"`
+	Media  string    `json:"media,omitempty"` // media type of the render: "" (print) or screen
 }
 
 // selectors matching (or not) the probe: <div id=anc class=anc><TAG id=probe class="c1 c2" data-a=x>
@@ -111,6 +112,9 @@ func c03Gen(t *rapid.T, tier Tier) interface{} {
 	c.Hints = rapid.Bool().Draw(t, "hints")
 	c.Layout = rapid.IntRange(0, 9).Draw(t, "layout") == 0
 	sels := c03Selectors(c03Tag(c.Prop))
+	if rapid.IntRange(0, 2).Draw(t, "mediatype") == 0 {
+		c.Media = "screen"
+	}
 	n := rapid.IntRange(2, 6).Draw(t, "ndecl")
 	if c.Prop == "text-align" && n > 4 {
 		n = 4 // one keyword per declaration
@@ -131,12 +135,16 @@ func c03Gen(t *rapid.T, tier Tier) interface{} {
 		}
 		switch d.Origin {
 		case "author":
-			d.Carrier = rapid.SampledFrom([]string{"style", "style", "style", "link", "import", "media", "media-off", "nested-amp", "nested-desc", "own-then-nested", "nested-then-own", "attr", "attr", "hint"}).Draw(t, "carrier")
+			d.Carrier = rapid.SampledFrom([]string{"style", "style", "style", "link", "import", "import-media", "import-media-off", "import-for-screen", "media", "media-off", "nested-amp", "nested-desc", "own-then-nested", "nested-then-own", "attr", "attr", "hint"}).Draw(t, "carrier")
 		default:
 			d.Carrier = rapid.SampledFrom([]string{"style", "style", "media", "media-off", "import", "own-then-nested", "nested-then-own"}).Draw(t, "carrier2")
 		}
 		if d.Carrier == "own-then-nested" || d.Carrier == "nested-then-own" {
 			d.Extra = rapid.SampledFrom([]string{"", "letter-spacing:1px", "word-spacing:2px;letter-spacing:1px", "letter-spacing:1px !important"}).Draw(t, "extra")
+		}
+		if c.Media != "" && d.Origin != "author" && (d.Carrier == "media" || d.Carrier == "media-off") {
+			// the user and UA sheets are parsed on their own, for the default media type
+			d.Carrier = "style"
 		}
 		if d.Origin == "ua" && d.Carrier == "import" {
 			// the generated UA rules share one sheet, where an @import is only valid before every other rule
@@ -330,18 +338,33 @@ func c03Build(c *C03Case) (doc string, opts wr.Opts, cands []c03Cand) {
 			}
 		}
 		text := rule
+		media := c.Media
+		if media == "" {
+			media = "print"
+		}
+		inMedia := "" // the media type the rule is restricted to
+		label := d.Carrier
 		switch d.Carrier {
 		case "media":
-			text = "@media print{" + rule + "}"
+			text, inMedia = "@media print{"+rule+"}", "print"
 		case "media-off":
-			text = "@media screen{" + rule + "}"
-			applies = false
+			text, inMedia = "@media screen{"+rule+"}", "screen"
 		case "import":
 			text = "@import url(\"" + dataCSS(rule) + "\");"
+		case "import-media":
+			text, inMedia, label = "@import url(\""+dataCSS("@media print{"+rule+"}")+"\");", "print", "import"
+		case "import-media-off":
+			text, inMedia, label = "@import url(\""+dataCSS("p{}@media screen{"+rule+"}")+"\");", "screen", "import"
+		case "import-for-screen":
+			text, inMedia, label = "@import url(\""+dataCSS(rule)+"\") screen;", "screen", "import"
 		}
-		if applies && (d.Carrier != "media-off") {
-			add(d, d.Value, false, spec, order, d.Important, d.Carrier)
-		} else if d.Carrier == "media-off" && d.OwnValue > 0 {
+		off := inMedia != "" && inMedia != media
+		if off {
+			applies = false
+		}
+		if applies {
+			add(d, d.Value, false, spec, order, d.Important, label)
+		} else if off && d.OwnValue > 0 {
 			// remove the parent's own candidate added above: the whole rule is in a non-matching block
 			if n := len(cands); n > 0 && cands[n-1].value == d.OwnValue {
 				cands = cands[:n-1]
@@ -369,7 +392,7 @@ func c03Build(c *C03Case) (doc string, opts wr.Opts, cands []c03Cand) {
 		inner = "<tr><td>x</td></tr>"
 	}
 	doc = `<!DOCTYPE html><html><head>` + head.String() + `</head><body><div id="anc" class="anc"><` + tag + ` id="probe" class="c1 c2" data-a="x"` + hintAttr + styleAttr + `>` + inner + `</` + tag + `></div></body></html>`
-	opts = wr.Opts{Hints: c.Hints, UserCSS: user, UACSS: "html,body,div,p,table{display:block}\n@page{@footnote{margin:0}}\n" + ua.String()}
+	opts = wr.Opts{Hints: c.Hints, Media: c.Media, UserCSS: user, UACSS: "html,body,div,p,table{display:block}\n@page{@footnote{margin:0}}\n" + ua.String()}
 	return doc, opts, cands
 }
 
